@@ -14,6 +14,7 @@ FUTURES = ["annotations", "division", "generators", "nested_scopes", "print_func
            "with_statement", "absolute_import", "generator_stop", "barry_as_FLUFL"]
 BINOPS = ["+", "-", "*", "/", "//", "%", "**", "<<", ">>", "&", "|", "^", "@"]
 CMPOPS = ["<", ">", "==", ">=", "<=", "!=", "in", "not in", "is", "is not"]
+SAFE_BINOPS = ["+", "-", "*", "/", "//", "%", "&", "|", "^"]
 
 
 class Scope(object):
@@ -112,7 +113,7 @@ class Gen(object):
         if k <= 3:
             return self.atom(sc)
         if k == 4:
-            return "%s %s %s" % (e(sc, d + 1), self.pick(BINOPS), e(sc, d + 1))
+            return "%s %s %s" % (e(sc, d + 1), self.pick(SAFE_BINOPS if self.exec_safe else BINOPS), e(sc, d + 1))
         if k == 5:
             return "%s%s" % (self.pick(["-", "not ", "~", "+"]), e(sc, d + 1))
         if k == 6:
@@ -172,7 +173,7 @@ class Gen(object):
             self.labels.add("const_container")
             return "(%s %s %s%s%s)" % (self.atom(sc), self.pick(["in", "not in"]), o, ", ".join(items), c)
         if k == 21:
-            return "%s %s %s" % (self.const(), self.pick(["+", "*", "-", "<<", "%"]), self.const())  # foldable (or not)
+            return "%s %s %s" % (self.const(), self.pick(["+", "-", "%"] if self.exec_safe else ["+", "*", "-", "<<", "%"]), self.const())  # foldable (or not)
         if k == 22:
             # operand on an earlier line than the operator (negative line delta)
             self.labels.add("multiline_expr")
@@ -477,6 +478,13 @@ class Gen(object):
     def while_(self, sc, d):
         sc.loop += 1
         cond = self.pick(["x", "1", "True", self.expr(sc), "not x < y < z"])
+        if self.exec_safe:
+            # terminating by construction: counter-guarded
+            self.wcount = getattr(self, "wcount", 0) + 1
+            cn = "_w%d" % self.wcount
+            body = self.block(sc, d + 1)
+            sc.loop -= 1
+            return ["%s = 3" % cn, "while %s:" % cn] + self.ind(["%s -= 1" % cn] + body)
         out = ["while %s:" % cond] + self.ind(self.block(sc, d + 1))
         sc.loop -= 1
         if self.chance(25):
@@ -575,6 +583,10 @@ class Gen(object):
             body += ["return", "def i():", "    " + self.pick(["i()", inner.locals[0] if inner.locals else "i()"])]
         out.append(head)
         out += self.ind(body)
+        if self.exec_safe and not is_async:
+            # call it, so that the nested code object actually runs
+            call = "%s(%s)" % (name, ", ".join(["1"] * self.n(0, 3)))
+            out += ["try:", "    print(%s)" % call, "except Exception as _e:", "    print(type(_e).__name__)"]
         return out
 
     def classdef(self, sc, d):
@@ -628,7 +640,7 @@ FILENAMES = ["<verif>", "m.py", "dir/m\u00e9.py", "\udcffx.py", "", "a b.py", "<
 
 @st.composite
 def grammar_programs(draw, max_size=30, modes=("exec",), exec_safe=False):
-    size = draw(st.integers(1, max_size))
+    size = draw(st.integers(3 if exec_safe else 1, max_size))
     g = Gen(draw, size, exec_safe=exec_safe)
     mode = "exec"
     if len(modes) > 1:
